@@ -1,17 +1,1088 @@
-//! C10 — correspondence driver (stub: not built yet).
+//! C10 — calls that are expected to panic followed by use of the surviving object, on tensors
+//! and tensor views (matrices: C11), and the access log of the `verif-hooks` monitor compared
+//! with the model's predicted leaf offsets.  See lean/Driver/C10.lean for the protocol.
+//!
+//! Every call runs under `catch_unwind(AssertUnwindSafe(..))`; afterwards the *same* object is
+//! observed (shape, stored element count, elements through every iterator flavour, checked
+//! indexing inside and outside the shape) and used by the following operations.
 
 use crate::util::*;
+use crate::with_d;
+use easy_ml::matrices::Matrix;
+use easy_ml::tensors::indexing::{TensorAccess, TensorOwnedIterator};
+use easy_ml::tensors::views::{TensorMut, TensorRef, TensorView};
+use easy_ml::tensors::Tensor;
+use std::cell::Cell;
 
-pub fn gen(_g: &mut Gen) {}
+// ---------------------------------------------------------------------------------------------
+// the caller's object: a tensor of run-time dimensionality
+// ---------------------------------------------------------------------------------------------
 
-pub struct Runner;
+pub enum AnyT {
+    D0(Tensor<u64, 0>),
+    D1(Tensor<u64, 1>),
+    D2(Tensor<u64, 2>),
+    D3(Tensor<u64, 3>),
+    D4(Tensor<u64, 4>),
+    D5(Tensor<u64, 5>),
+    D6(Tensor<u64, 6>),
+}
+
+trait Wrap {
+    fn wrap(self) -> AnyT;
+}
+macro_rules! impl_wrap {
+    ($($d:literal $v:ident),*) => { $(impl Wrap for Tensor<u64, $d> { fn wrap(self) -> AnyT { AnyT::$v(self) } })* };
+}
+impl_wrap!(0 D0, 1 D1, 2 D2, 3 D3, 4 D4, 5 D5, 6 D6);
+
+macro_rules! on_t {
+    ($any:expr, $t:ident => $body:expr) => {
+        match $any {
+            AnyT::D0($t) => $body,
+            AnyT::D1($t) => $body,
+            AnyT::D2($t) => $body,
+            AnyT::D3($t) => $body,
+            AnyT::D4($t) => $body,
+            AnyT::D5($t) => $body,
+            AnyT::D6($t) => $body,
+        }
+    };
+}
+
+fn data(n: usize, base: u64) -> Vec<u64> {
+    (0..n as u64).map(|i| base + i).collect()
+}
+
+/// the index code the with-index closures add (same as `Driver.C10.code`)
+fn code(idx: &[usize]) -> u64 {
+    idx.iter().fold(0u64, |a, i| a.wrapping_mul(7).wrapping_add(*i as u64).wrapping_add(1))
+}
+
+fn show_u64s(v: &[u64]) -> String {
+    if v.is_empty() {
+        "-".into()
+    } else {
+        v.iter().map(|x| x.to_string()).collect::<Vec<_>>().join(",")
+    }
+}
+
+#[cfg(feature = "hooks")]
+fn storage_len<const D: usize>(t: &Tensor<u64, D>) -> usize {
+    t.verif_storage_len()
+}
+#[cfg(not(feature = "hooks"))]
+fn storage_len<const D: usize>(t: &Tensor<u64, D>) -> usize {
+    // `map` walks the stored elements directly
+    let n = Cell::new(0usize);
+    let _ = t.map(|x| {
+        n.set(n.get() + 1);
+        x
+    });
+    n.get()
+}
+
+/// How a call ended, for the part of the answer the property speaks about.
+fn out_str(r: &Result<(), PanicKind>) -> &'static str {
+    match r {
+        Ok(()) => "ok",
+        Err(PanicKind::Hook) => "panic(hook)",
+        Err(_) => "panic",
+    }
+}
+
+fn kind_str(r: &Result<(), PanicKind>) -> String {
+    match r {
+        Ok(()) => String::new(),
+        Err(k) => format!(" ## kind={}", k.as_str()),
+    }
+}
+
+/// The elements in iteration order, read with the requested iterator flavour.  Bounded, so a
+/// corrupted object cannot make the harness loop or allocate without end.
+fn read_data<const D: usize>(t: &mut Tensor<u64, D>, flavour: &str) -> String {
+    let limit = storage_len(t).saturating_add(2).min(1 << 20);
+    let r = catch(|| -> Vec<u64> {
+        match flavour {
+            "ref" => t.iter_reference().take(limit).cloned().collect(),
+            "mut" => t.iter_reference_mut().take(limit).map(|x| *x).collect(),
+            "owned" => t.clone().iter_owned().take(limit).collect(),
+            "view" => TensorView::from(&*t).iter().take(limit).collect(),
+            "wi" => t.iter().with_index().take(limit).map(|(_, x)| x).collect(),
+            "access" => t.index().iter().take(limit).collect(),
+            "refwi" => t.iter_reference().with_index().take(limit).map(|(_, x)| *x).collect(),
+            _ => t.iter().take(limit).collect(),
+        }
+    });
+    match r {
+        Ok(v) => show_u64s(&v),
+        Err(k) => panic_str(k),
+    }
+}
+
+fn show_state<const D: usize>(t: &mut Tensor<u64, D>, flavour: &str) -> String {
+    format!("shape={} len={} data={}", show_shape(&t.shape()), storage_len(t), read_data(t, flavour))
+}
+
+fn parse_panic_at(s: &str) -> Option<usize> {
+    if s == "-" {
+        None
+    } else {
+        Some(s.parse().expect("panic_at"))
+    }
+}
+
+// ---------------------------------------------------------------------------------------------
+// access log
+// ---------------------------------------------------------------------------------------------
+
+#[cfg(feature = "hooks")]
+fn logged(expect_leaf: &str, f: impl FnOnce()) -> String {
+    use easy_ml::verif_hooks::{start_log, take_log, Leaf};
+    start_log();
+    let r = catch(f);
+    let log = take_log();
+    if let Err(k) = r {
+        return match k {
+            PanicKind::Hook => "panic(hook)".to_string(),
+            k => format!("panic ## kind={}", k.as_str()),
+        };
+    }
+    let all_ok = log.iter().all(|a| a.ok && a.offset < a.len);
+    let leaf = |l: &Leaf| match l {
+        Leaf::Tensor => "tensor",
+        Leaf::Matrix => "matrix",
+        Leaf::MatrixPart => "matrixpart",
+    };
+    let kind = if log.iter().all(|a| leaf(&a.leaf) == expect_leaf) { expect_leaf } else { "MIXED-LEAVES" };
+    let m = if log.iter().all(|a| a.mutable) && !log.is_empty() {
+        "mut"
+    } else if log.iter().all(|a| !a.mutable) {
+        "imm"
+    } else {
+        "MIXED"
+    };
+    let len = log.first().map(|a| a.len);
+    let same = log.iter().all(|a| Some(a.len) == len && a.base == log[0].base);
+    let offs: Vec<String> = log.iter().map(|a| a.offset.to_string()).collect();
+    format!(
+        "accesses={} {} ## {} {} len={}{} offs={}",
+        log.len(),
+        if all_ok { "inbounds" } else { "OUT-OF-BOUNDS" },
+        kind,
+        m,
+        len.map(|l| l.to_string()).unwrap_or_else(|| "0".into()),
+        if same { "" } else { " SEVERAL-CONTAINERS" },
+        if offs.is_empty() { "-".to_string() } else { offs.join(",") }
+    )
+}
+
+#[cfg(not(feature = "hooks"))]
+fn logged(_expect_leaf: &str, _f: impl FnOnce()) -> String {
+    "no-hooks".to_string()
+}
+
+fn log_tensor<const D: usize>(t: &mut Tensor<u64, D>, flavour: &str, wi: bool) -> String {
+    let limit = storage_len(t).saturating_add(2).min(1 << 20);
+    match (flavour, wi) {
+        ("copy", false) => logged("tensor", || t.iter().take(limit).for_each(drop)),
+        ("copy", true) => logged("tensor", || t.iter().with_index().take(limit).for_each(drop)),
+        ("ref", false) => logged("tensor", || t.iter_reference().take(limit).for_each(drop)),
+        ("ref", true) => logged("tensor", || t.iter_reference().with_index().take(limit).for_each(drop)),
+        ("mut", false) => logged("tensor", || t.iter_reference_mut().take(limit).for_each(drop)),
+        ("mut", true) => logged("tensor", || t.iter_reference_mut().with_index().take(limit).for_each(drop)),
+        ("owned", false) => {
+            let c = t.clone();
+            logged("tensor", || c.iter_owned().take(limit).for_each(drop))
+        }
+        ("owned", true) => {
+            let c = t.clone();
+            logged("tensor", || c.iter_owned().with_index().take(limit).for_each(drop))
+        }
+        _ => "bad-flavour".into(),
+    }
+}
+
+fn log_access<const D: usize>(t: &mut Tensor<u64, D>, names: &[&'static str], flavour: &str) -> String {
+    if names.len() != D {
+        return "arity".into();
+    }
+    let names: [&'static str; D] = names_array(names);
+    let limit = storage_len(t).saturating_add(2).min(1 << 20);
+    // the constructor panics on a name list that is no ordering of the tensor's names
+    if catch(|| {
+        let _ = TensorAccess::from(&*t, names);
+    })
+    .is_err()
+    {
+        return "rejected".into();
+    }
+    match flavour {
+        "copy" => logged("tensor", || TensorAccess::from(&*t, names).iter().take(limit).for_each(drop)),
+        "ref" => logged("tensor", || TensorAccess::from(&*t, names).iter_reference().take(limit).for_each(drop)),
+        "mut" => logged("tensor", || {
+            TensorAccess::from(&mut *t, names).iter_reference_mut().take(limit).for_each(drop)
+        }),
+        "owned" => {
+            let c = t.clone();
+            logged("tensor", || {
+                TensorOwnedIterator::from(TensorAccess::from(c, names)).take(limit).for_each(drop)
+            })
+        }
+        _ => "bad-flavour".into(),
+    }
+}
+
+fn log_matrix(rows: usize, cols: usize, order: &str, flavour: &str) -> String {
+    let m = match catch(|| Matrix::from_flat_row_major((rows, cols), (0..(rows * cols) as u64).collect())) {
+        Ok(m) => m,
+        Err(_) => return "rejected".into(),
+    };
+    let mut m = m;
+    let limit = rows * cols + 2;
+    let (what, arg) = match order.split_once(':') {
+        Some((w, a)) => (w, a.parse::<usize>().expect("line index")),
+        None => (order, 0),
+    };
+    // the line iterators' constructors assert that the row / column exists
+    let valid = match what {
+        "row" => catch(|| {
+            let _ = m.row_iter(arg);
+        })
+        .is_ok(),
+        "column" => catch(|| {
+            let _ = m.column_iter(arg);
+        })
+        .is_ok(),
+        _ => true,
+    };
+    if !valid {
+        return "rejected".into();
+    }
+    match (what, flavour) {
+        ("row_major", "copy") => logged("matrix", || m.row_major_iter().take(limit).for_each(drop)),
+        ("row_major", "ref") => logged("matrix", || m.row_major_reference_iter().take(limit).for_each(drop)),
+        ("row_major", "mut") => logged("matrix", || m.row_major_reference_mut_iter().take(limit).for_each(drop)),
+        ("row_major", "owned") => logged("matrix", || m.row_major_owned_iter().take(limit).for_each(drop)),
+        ("column_major", "copy") => logged("matrix", || m.column_major_iter().take(limit).for_each(drop)),
+        ("column_major", "ref") => logged("matrix", || m.column_major_reference_iter().take(limit).for_each(drop)),
+        ("column_major", "mut") => {
+            logged("matrix", || m.column_major_reference_mut_iter().take(limit).for_each(drop))
+        }
+        ("column_major", "owned") => logged("matrix", || m.column_major_owned_iter().take(limit).for_each(drop)),
+        ("row", "copy") => logged("matrix", || m.row_iter(arg).take(limit).for_each(drop)),
+        ("row", "ref") => logged("matrix", || m.row_reference_iter(arg).take(limit).for_each(drop)),
+        ("row", "mut") => logged("matrix", || m.row_reference_mut_iter(arg).take(limit).for_each(drop)),
+        ("column", "copy") => logged("matrix", || m.column_iter(arg).take(limit).for_each(drop)),
+        ("column", "ref") => logged("matrix", || m.column_reference_iter(arg).take(limit).for_each(drop)),
+        ("column", "mut") => logged("matrix", || m.column_reference_mut_iter(arg).take(limit).for_each(drop)),
+        ("diagonal", "copy") => logged("matrix", || m.diagonal_iter().take(limit).for_each(drop)),
+        ("diagonal", "ref") => logged("matrix", || m.diagonal_reference_iter().take(limit).for_each(drop)),
+        ("diagonal", "mut") => logged("matrix", || m.diagonal_reference_mut_iter().take(limit).for_each(drop)),
+        _ => "bad-flavour".into(),
+    }
+}
+
+#[cfg(feature = "hooks")]
+fn matrix_len(m: &Matrix<u64>) -> usize {
+    m.verif_storage_len()
+}
+#[cfg(not(feature = "hooks"))]
+fn matrix_len(m: &Matrix<u64>) -> usize {
+    let n = Cell::new(0usize);
+    let _ = m.map(|x| {
+        n.set(n.get() + 1);
+        x
+    });
+    n.get()
+}
+
+fn show_matrix_result(r: Result<Matrix<u64>, PanicKind>) -> String {
+    match r {
+        Ok(m) => {
+            // use the object: a bounded walk over its elements (an unchecked access per item)
+            let (rows, cols) = m.size();
+            let len = matrix_len(&m);
+            let used = match catch(|| m.row_major_iter().take(len.saturating_add(2).min(1 << 20)).count()) {
+                Ok(n) => n.to_string(),
+                Err(k) => panic_str(k),
+            };
+            format!("ok {}x{} len={} use={}", rows, cols, len, used)
+        }
+        Err(PanicKind::Hook) => "panic(hook)".into(),
+        Err(k) => format!("panic ## kind={}", k.as_str()),
+    }
+}
+
+// ---------------------------------------------------------------------------------------------
+// operations on the caller's tensor
+// ---------------------------------------------------------------------------------------------
+
+/// Tensor::from / try_from at a run-time dimensionality: Ok(Some) accepted, Ok(None) `Err`
+fn construct(shape: &[(&'static str, usize)], n: usize, base: u64, fallible: bool) -> Result<Option<AnyT>, PanicKind> {
+    with_d!(shape.len(), D => {
+        let sh: [(&'static str, usize); D] = shape_array(shape);
+        if fallible {
+            catch(|| Tensor::<u64, D>::try_from(sh, data(n, base)).ok().map(|t| t.wrap()))
+        } else {
+            catch(|| Some(Tensor::<u64, D>::from(sh, data(n, base)).wrap()))
+        }
+    })
+}
+
+/// What an operation did: how the call ended and, if it produced a new object, the replacement.
+struct Done {
+    out: Result<(), PanicKind>,
+    err: bool,
+    replace: Option<AnyT>,
+}
+
+fn done(out: Result<(), PanicKind>) -> Done {
+    Done { out, err: false, replace: None }
+}
+
+fn mutate<const D: usize>(t: &mut Tensor<u64, D>, toks: &[&str]) -> Done
+where
+    Tensor<u64, D>: Wrap,
+{
+    let via = opt_arg("via", toks).unwrap_or("");
+    match toks[0] {
+        "reshape_mut" => {
+            let shape = parse_shape(toks[1]);
+            if shape.len() != D {
+                return Done { out: Ok(()), err: true, replace: None };
+            }
+            let sh: [(&'static str, usize); D] = shape_array(&shape);
+            done(catch(|| t.reshape_mut(sh)))
+        }
+        "reshape_owned" => {
+            let shape = parse_shape(toks[1]);
+            // the call consumes its receiver: a caller that wants to survive a panic passes a clone
+            let c = t.clone();
+            with_d!(shape.len(), D2 => {
+                let sh: [(&'static str, usize); D2] = shape_array(&shape);
+                match catch(|| c.reshape_owned(sh)) {
+                    Ok(t2) => Done { out: Ok(()), err: false, replace: Some(t2.wrap()) },
+                    Err(k) => done(Err(k)),
+                }
+            })
+        }
+        "rename" => {
+            let names = parse_names(toks[1]);
+            if names.len() != D {
+                return Done { out: Ok(()), err: true, replace: None };
+            }
+            let names: [&'static str; D] = names_array(&names);
+            if via == "rename_owned" {
+                let c = t.clone();
+                match catch(|| c.rename_owned(names)) {
+                    Ok(t2) => Done { out: Ok(()), err: false, replace: Some(t2.wrap()) },
+                    Err(k) => done(Err(k)),
+                }
+            } else {
+                done(catch(|| t.rename(names)))
+            }
+        }
+        "transpose_mut" | "reorder_mut" => {
+            let names = parse_names(toks[1]);
+            if names.len() != D {
+                // not expressible: the model answers "panic" for a list of another length
+                return done(Err(PanicKind::Explicit));
+            }
+            let names: [&'static str; D] = names_array(&names);
+            let transpose = toks[0] == "transpose_mut";
+            if via == "alloc" {
+                match catch(|| if transpose { t.transpose(names) } else { t.reorder(names) }) {
+                    Ok(t2) => Done { out: Ok(()), err: false, replace: Some(t2.wrap()) },
+                    Err(k) => done(Err(k)),
+                }
+            } else {
+                done(catch(|| if transpose { t.transpose_mut(names) } else { t.reorder_mut(names) }))
+            }
+        }
+        "map_mut" => {
+            let k: u64 = toks[1].parse().expect("k");
+            let p = parse_panic_at(toks[2]);
+            let calls = Cell::new(0usize);
+            let f = |x: u64| -> u64 {
+                if Some(calls.get()) == p {
+                    panic!("closure panics on call {}", calls.get());
+                }
+                calls.set(calls.get() + 1);
+                x.wrapping_add(k)
+            };
+            done(catch(|| match via {
+                "view" => TensorView::from(&mut *t).map_mut(f),
+                "access" => t.index_mut().map_mut(f),
+                _ => t.map_mut(f),
+            }))
+        }
+        "map_mut_with_index" => {
+            let k: u64 = toks[1].parse().expect("k");
+            let p = parse_panic_at(toks[2]);
+            let calls = Cell::new(0usize);
+            let f = |idx: [usize; D], x: u64| -> u64 {
+                if Some(calls.get()) == p {
+                    panic!("closure panics on call {}", calls.get());
+                }
+                calls.set(calls.get() + 1);
+                x.wrapping_add(k).wrapping_add(code(&idx))
+            };
+            done(catch(|| match via {
+                "view" => TensorView::from(&mut *t).map_mut_with_index(f),
+                "access" => t.index_mut().map_mut_with_index(f),
+                _ => t.map_mut_with_index(f),
+            }))
+        }
+        "access_map_mut" => {
+            let names = parse_names(toks[1]);
+            if names.len() != D {
+                return done(Err(PanicKind::Explicit));
+            }
+            let names: [&'static str; D] = names_array(&names);
+            let k: u64 = toks[2].parse().expect("k");
+            let p = parse_panic_at(toks[3]);
+            let calls = Cell::new(0usize);
+            let f = |idx: [usize; D], x: u64| -> u64 {
+                if Some(calls.get()) == p {
+                    panic!("closure panics on call {}", calls.get());
+                }
+                calls.set(calls.get() + 1);
+                x.wrapping_add(k).wrapping_add(code(&idx))
+            };
+            done(catch(|| match via {
+                "index_by_mut" => t.index_by_mut(names).map_mut_with_index(f),
+                "view" => TensorView::from(&mut *t).index_by_mut(names).map_mut_with_index(f),
+                _ => TensorAccess::from(&mut *t, names).map_mut_with_index(f),
+            }))
+        }
+        "set" => {
+            let idx = parse_usizes(toks[1]);
+            if idx.len() != D {
+                return Done { out: Ok(()), err: true, replace: None };
+            }
+            let idx: [usize; D] = to_array(&idx);
+            let v: u64 = toks[2].parse().expect("v");
+            let r = catch(|| {
+                let cell = match via {
+                    "access" => t.index_mut().try_get_reference_mut(idx).map(|x| *x = v),
+                    "view" => {
+                        let mut view = TensorView::from(&mut *t);
+                        view.source_ref_mut().get_reference_mut(idx).map(|x| *x = v)
+                    }
+                    _ => t.get_reference_mut(idx).map(|x| *x = v),
+                };
+                cell.is_some()
+            });
+            match r {
+                Ok(true) => done(Ok(())),
+                Ok(false) => Done { out: Ok(()), err: true, replace: None },
+                Err(k) => done(Err(k)),
+            }
+        }
+        _ => panic!("unknown operation {}", toks[0]),
+    }
+}
+
+fn get<const D: usize>(t: &mut Tensor<u64, D>, toks: &[&str]) -> String {
+    let idx = parse_usizes(toks[1]);
+    if idx.len() != D {
+        return "none".into();
+    }
+    let idx: [usize; D] = to_array(&idx);
+    let r = match opt_arg("via", toks).unwrap_or("") {
+        "access" => catch(|| t.index().try_get_reference(idx).cloned()),
+        "view" => catch(|| TensorView::from(&*t).index().try_get_reference(idx).cloned()),
+        "panicking" => match catch(|| t.index().get(idx)) {
+            Ok(v) => Ok(Some(v)),
+            Err(PanicKind::Explicit) => Ok(None),
+            Err(k) => Err(k),
+        },
+        _ => catch(|| t.get_reference(idx).cloned()),
+    };
+    match r {
+        Ok(Some(v)) => format!("some({})", v),
+        Ok(None) => "none".into(),
+        Err(k) => panic_str(k),
+    }
+}
+
+pub struct Runner {
+    t: Option<AnyT>,
+}
 
 impl Runner {
     pub fn new() -> Runner {
-        Runner
+        Runner { t: None }
     }
 
-    pub fn step(&mut self, _toks: &[&str]) -> String {
-        "unimplemented".into()
+    fn state(&mut self, flavour: &str) -> String {
+        match &mut self.t {
+            None => "none".into(),
+            Some(any) => on_t!(any, t => show_state(t, flavour)),
+        }
+    }
+
+    pub fn step(&mut self, toks: &[&str]) -> String {
+        let mut toks = toks;
+        if toks.first() == Some(&"@") {
+            self.t = None;
+            toks = &toks[1..];
+        }
+        let read = opt_arg("read", toks).unwrap_or("copy");
+        match toks[0] {
+            "mlog" => {
+                return log_matrix(toks[1].parse().unwrap(), toks[2].parse().unwrap(), toks[3], toks[4]);
+            }
+            "mflat" => {
+                let (r, c, n): (usize, usize, u64) =
+                    (toks[1].parse().unwrap(), toks[2].parse().unwrap(), toks[3].parse().unwrap());
+                return show_matrix_result(catch(|| Matrix::from_flat_row_major((r, c), (1..=n).collect())));
+            }
+            "mempty" => {
+                let (r, c): (usize, usize) = (toks[1].parse().unwrap(), toks[2].parse().unwrap());
+                return show_matrix_result(catch(|| Matrix::empty(7u64, (r, c))));
+            }
+            "from" | "try_from" => {
+                let shape = parse_shape(toks[1]);
+                let n: usize = toks[2].parse().expect("n");
+                let base: u64 = toks[3].parse().expect("base");
+                let fallible = toks[0] == "try_from";
+                let (out, kind) = match construct(&shape, n, base, fallible) {
+                    Ok(Some(t)) => {
+                        self.t = Some(t);
+                        ("ok", String::new())
+                    }
+                    Ok(None) => ("err", String::new()),
+                    Err(PanicKind::Hook) => ("panic(hook)", " ## kind=hook".to_string()),
+                    Err(k) => ("panic", format!(" ## kind={}", k.as_str())),
+                };
+                return format!("{} {}{}", out, self.state(read), kind);
+            }
+            "state" => return self.state(read),
+            _ => {}
+        }
+        let any = match &mut self.t {
+            None => return "no-tensor".into(),
+            Some(any) => any,
+        };
+        match toks[0] {
+            "get" => on_t!(any, t => get(t, toks)),
+            "log" => {
+                let wi = opt_arg("wi", toks) == Some("1");
+                on_t!(any, t => log_tensor(t, toks[1], wi))
+            }
+            "log_access" => {
+                let names = parse_names(toks[1]);
+                on_t!(any, t => log_access(t, &names, toks[2]))
+            }
+            _ => {
+                let d = on_t!(any, t => mutate(t, toks));
+                if let Some(t2) = d.replace {
+                    self.t = Some(t2);
+                }
+                let out = if d.err { "err" } else { out_str(&d.out) };
+                format!("{} {}{}", out, self.state(read), kind_str(&d.out))
+            }
+        }
+    }
+}
+
+// ---------------------------------------------------------------------------------------------
+// generation
+// ---------------------------------------------------------------------------------------------
+
+const NAMES: [&str; 8] = ["a", "b", "c", "d", "e", "f", "x", "y"];
+const READS: [&str; 8] = ["copy", "ref", "mut", "owned", "view", "wi", "access", "refwi"];
+const FLAVOURS: [&str; 4] = ["copy", "ref", "mut", "owned"];
+
+fn product(lens: &[usize]) -> usize {
+    lens.iter().product()
+}
+
+fn shape_str(names: &[&str], lens: &[usize]) -> String {
+    if lens.is_empty() {
+        "-".into()
+    } else {
+        names.iter().zip(lens).map(|(n, l)| format!("{}:{}", n, l)).collect::<Vec<_>>().join(",")
+    }
+}
+
+fn names_str(names: &[&str]) -> String {
+    if names.is_empty() {
+        "-".into()
+    } else {
+        names.join(",")
+    }
+}
+
+/// Shapes whose element count does not fit a `usize`, with the element count a wrapped
+/// multiplication yields (2^64 arithmetic) — the count for which the unrepaired code accepted
+/// them in a release build (defect #8).
+fn overflowing() -> Vec<(Vec<usize>, usize)> {
+    let m = usize::MAX;
+    vec![
+        (vec![(1 << 63) + 1, 2], 2),
+        (vec![1 << 63, 2], 0),
+        (vec![1 << 32, 1 << 32], 0),
+        (vec![m, m], 1),
+        (vec![6148914691236517206, 3], 2),
+        (vec![(1 << 62) + 1, 4], 4),
+        (vec![2, (1 << 63) + 1], 2),
+        (vec![1 << 32, 1 << 16, 1 << 16], 0),
+        (vec![3, (1 << 62) + 1, 4], 12),
+        (vec![(1 << 63) + 3, 2], 6),
+        (vec![1 << 16, 1 << 16, 1 << 16, 1 << 16], 0),
+        (vec![2, 2, (1 << 62) + 1], 4),
+        (vec![m, 2], m - 1),
+        (vec![1 << 21, 1 << 21, 1 << 21, 2], 0),
+        (vec![2, 3, (1 << 63) + 1, 2, 1], 12),
+        (vec![2, 1, 3, 1, (1 << 62) + 1, 4], 24),
+    ]
+}
+
+struct Cur {
+    names: Vec<&'static str>,
+    lens: Vec<usize>,
+}
+
+impl Cur {
+    fn n(&self) -> usize {
+        product(&self.lens)
+    }
+}
+
+fn pick_names(g: &mut Gen, d: usize) -> Vec<&'static str> {
+    let mut pool: Vec<&'static str> = NAMES.to_vec();
+    g.rng.shuffle(&mut pool);
+    pool.truncate(d);
+    pool
+}
+
+fn random_lens(g: &mut Gen, d: usize, max_product: usize) -> Vec<usize> {
+    loop {
+        let lens: Vec<usize> = (0..d).map(|_| g.rng.range(1, 4)).collect();
+        if product(&lens) <= max_product {
+            return lens;
+        }
+    }
+}
+
+fn factorization(g: &mut Gen, n: usize, d: usize) -> Vec<usize> {
+    // a random way of writing n as a product of d factors
+    let mut lens = vec![1usize; d];
+    let mut rest = n;
+    let mut p = 2;
+    while rest > 1 && d > 0 {
+        if rest % p == 0 {
+            let i = g.rng.below(d);
+            lens[i] *= p;
+            rest /= p;
+        } else {
+            p += 1;
+        }
+    }
+    lens
+}
+
+fn read_opt(g: &mut Gen) -> String {
+    let r = *g.rng.pick(&READS);
+    g.count(&format!("read.{}", r));
+    format!("read={}", r)
+}
+
+/// a flawed or valid constructor argument for a tensor that should hold `cur`-like data
+fn emit_constructor(g: &mut Gen, at: &str, op: &str, flaw: usize, base: u64) -> Option<Cur> {
+    let d = g.rng.range(0, 4);
+    let names = pick_names(g, d);
+    let lens = random_lens(g, d, 24);
+    let n = product(&lens);
+    let read = read_opt(g);
+    let (line, ok) = match flaw {
+        0 => (format!("{}{} {} {} {} {}", at, op, shape_str(&names, &lens), n, base, read), true),
+        1 => (format!("{}{} {} {} {} {}", at, op, shape_str(&names, &lens), n + 1, base, read), false),
+        2 if n > 0 => (format!("{}{} {} {} {} {}", at, op, shape_str(&names, &lens), n - 1, base, read), false),
+        3 if d >= 2 => {
+            let mut ns = names.clone();
+            ns[d - 1] = ns[0];
+            (format!("{}{} {} {} {} {}", at, op, shape_str(&ns, &lens), n, base, read), false)
+        }
+        4 if d >= 1 => {
+            let mut ls = lens.clone();
+            let i = g.rng.below(d);
+            ls[i] = 0;
+            let count = if g.rng.chance(1, 2) { 0 } else { n / lens[i] };
+            (format!("{}{} {} {} {} {}", at, op, shape_str(&names, &ls), count, base, read), false)
+        }
+        5 => {
+            let table = overflowing();
+            let (ls, count) = g.rng.pick(&table).clone();
+            let ns = pick_names(g, ls.len());
+            let count = if count > 64 { 0 } else { count };
+            (format!("{}{} {} {} {} {}", at, op, shape_str(&ns, &ls), count, base, read), false)
+        }
+        _ => (format!("{}{} {} {} {} {}", at, op, shape_str(&names, &lens), 0, base, read), n == 0),
+    };
+    g.count(&format!("ctor.{}.{}", op, if ok { "valid" } else { "invalid" }));
+    g.count(&format!("ctor.flaw.{}", flaw));
+    g.op(line);
+    if ok {
+        Some(Cur { names, lens })
+    } else {
+        None
+    }
+}
+
+fn emit_observations(g: &mut Gen, cur: &Cur, all: bool) {
+    let d = cur.lens.len();
+    if all || g.rng.chance(1, 2) {
+        let r = read_opt(g);
+        g.op(format!("state {}", r));
+    }
+    // checked indexing inside, one past the end, far outside
+    let vias = ["get_reference", "access", "panicking", "view"];
+    let tries = if all { 3 } else { 1 };
+    for k in 0..tries {
+        let mut idx: Vec<usize> = cur.lens.iter().map(|l| g.rng.below(*l)).collect();
+        let kind = if all { k } else { g.rng.below(3) };
+        if d > 0 {
+            let i = g.rng.below(d);
+            match kind {
+                1 => idx[i] = cur.lens[i],
+                2 => idx[i] = *g.rng.pick(&[usize::MAX, usize::MAX / 2 + 1, 1 << 32]),
+                _ => {}
+            }
+        }
+        g.count(&format!("get.{}", ["inside", "one-past", "far-out"][kind]));
+        let v1_ = g.rng.pick(&vias);
+        g.op(format!("get {} via={}", show_usizes(&idx), v1_));
+    }
+    if all || g.rng.chance(1, 2) {
+        let f = *g.rng.pick(&FLAVOURS);
+        let wi = g.rng.chance(1, 3);
+        g.count(&format!("log.tensor.{}", f));
+        g.op(format!("log {}{}", f, if wi { " wi=1" } else { "" }));
+    }
+    if all || g.rng.chance(1, 2) {
+        let mut ns = cur.names.clone();
+        g.rng.shuffle(&mut ns);
+        let valid = !(d >= 1 && g.rng.chance(1, 6));
+        if !valid {
+            let i = g.rng.below(d);
+            ns[i] = if d >= 2 && g.rng.chance(1, 2) { ns[(i + 1) % d] } else { "zz" };
+        }
+        let f = *g.rng.pick(&FLAVOURS);
+        g.count(&format!("log.access.{}.{}", f, if valid { "valid" } else { "invalid" }));
+        g.op(format!("log_access {} {}", names_str(&ns), f));
+    }
+}
+
+/// one random mutator with valid or invalid arguments; returns the bookkeeping of the object
+/// the property demands afterwards
+fn emit_mutator(g: &mut Gen, cur: Cur, counter: &mut u64) -> Cur {
+    let d = cur.lens.len();
+    let n = cur.n();
+    let read = read_opt(g);
+    let invalid = g.rng.chance(2, 5);
+    let which = g.rng.below(11);
+    let tag = |g: &mut Gen, name: &str, ok: bool| {
+        g.count(&format!("op.{}.{}", name, if ok { "valid" } else { "invalid" }));
+    };
+    *counter += 100;
+    match which {
+        0 | 1 => {
+            // constructor call while holding an object
+            let op = if which == 0 { "from" } else { "try_from" };
+            let flaw = if invalid { g.rng.range(1, 6) } else { 0 };
+            match emit_constructor(g, "", op, flaw, *counter) {
+                Some(c) => c,
+                None => cur,
+            }
+        }
+        2 | 3 => {
+            let owned = which == 3;
+            let d2 = if owned { g.rng.range(0, 4) } else { d };
+            let names = pick_names(g, d2);
+            let op = if owned { "reshape_owned" } else { "reshape_mut" };
+            let mut lens = factorization(g, n, d2);
+            let mut ns = names.clone();
+            if invalid {
+                let table: Vec<(Vec<usize>, usize)> =
+                    overflowing().into_iter().filter(|(ls, c)| ls.len() == d2 && *c == n).collect();
+                match g.rng.below(4) {
+                    1 if d2 >= 2 => ns[1] = ns[0],
+                    2 if d2 >= 1 => {
+                        let i = g.rng.below(d2);
+                        lens[i] = 0;
+                    }
+                    3 if !table.is_empty() => {
+                        // a shape whose product wraps around to the stored element count
+                        lens = g.rng.pick(&table).0.clone();
+                        g.count("op.reshape.overflowing-shape");
+                    }
+                    _ if d2 >= 1 => lens[0] += 1,
+                    _ => {}
+                }
+            }
+            let valid = lens.iter().all(|l| *l > 0)
+                && lens.iter().try_fold(1usize, |a, l| a.checked_mul(*l)) == Some(n)
+                && (0..d2).all(|i| (0..i).all(|j| ns[i] != ns[j]));
+            tag(g, op, valid);
+            g.op(format!("{} {} {}", op, shape_str(&ns, &lens), read));
+            if valid {
+                Cur { names: ns, lens }
+            } else {
+                cur
+            }
+        }
+        4 => {
+            let mut names = pick_names(g, d);
+            let ok = !(invalid && d >= 2);
+            if !ok {
+                names[d - 1] = names[0];
+            }
+            tag(g, "rename", ok);
+            let via = if g.rng.chance(1, 2) { "rename" } else { "rename_owned" };
+            g.op(format!("rename {} via={} {}", names_str(&names), via, read));
+            if ok {
+                Cur { names, lens: cur.lens }
+            } else {
+                cur
+            }
+        }
+        5 | 6 => {
+            let op = if which == 5 { "transpose_mut" } else { "reorder_mut" };
+            let mut perm: Vec<usize> = (0..d).collect();
+            g.rng.shuffle(&mut perm);
+            let mut ns: Vec<&'static str> = perm.iter().map(|&i| cur.names[i]).collect();
+            let ok = !(invalid && d >= 1);
+            if !ok {
+                let i = g.rng.below(d);
+                ns[i] = if d >= 2 && g.rng.chance(1, 2) { ns[(i + 1) % d] } else { "zz" };
+            }
+            tag(g, op, ok);
+            let via = if g.rng.chance(1, 3) { "alloc" } else { "mut" };
+            g.op(format!("{} {} via={} {}", op, names_str(&ns), via, read));
+            if !ok {
+                cur
+            } else if which == 6 {
+                Cur { names: ns, lens: perm.iter().map(|&i| cur.lens[i]).collect() }
+            } else {
+                Cur { names: cur.names.clone(), lens: perm.iter().map(|&i| cur.lens[i]).collect() }
+            }
+        }
+        7 | 8 => {
+            let op = if which == 7 { "map_mut" } else { "map_mut_with_index" };
+            let p = if invalid { g.rng.below(n + 1).to_string() } else { "-".to_string() };
+            tag(g, op, !invalid || p == n.to_string());
+            let via = *g.rng.pick(&["tensor", "view", "access"]);
+            let v1_ = g.rng.range(1, 9) * 1000;
+            g.op(format!("{} {} {} via={} {}", op, v1_, p, via, read));
+            cur
+        }
+        9 => {
+            let mut ns = cur.names.clone();
+            g.rng.shuffle(&mut ns);
+            let bad_names = invalid && d >= 1 && g.rng.chance(1, 2);
+            if bad_names {
+                let i = g.rng.below(d);
+                ns[i] = if d >= 2 && g.rng.chance(1, 2) { ns[(i + 1) % d] } else { "zz" };
+            }
+            let p = if invalid && !bad_names { g.rng.below(n + 1).to_string() } else { "-".to_string() };
+            tag(g, "access_map_mut", !invalid);
+            let via = *g.rng.pick(&["from", "index_by_mut", "view"]);
+            let v1_ = g.rng.range(1, 9) * 1000;
+            g.op(format!("access_map_mut {} {} {} via={} {}", names_str(&ns), v1_, p, via, read));
+            cur
+        }
+        _ => {
+            let mut idx: Vec<usize> = cur.lens.iter().map(|l| g.rng.below(*l)).collect();
+            let ok = !(invalid && d >= 1);
+            if !ok {
+                let i = g.rng.below(d);
+                idx[i] = if g.rng.chance(1, 2) { cur.lens[i] } else { usize::MAX - g.rng.below(2) };
+            }
+            tag(g, "set", ok);
+            let via = *g.rng.pick(&["tensor", "view", "access"]);
+            g.op(format!("set {} {} via={} {}", show_usizes(&idx), 500000 + *counter, via, read));
+            cur
+        }
+    }
+}
+
+pub fn gen(g: &mut Gen) {
+    let thorough = g.thorough;
+    // A. constructors: every flaw, both forms, from nothing and while holding an object
+    let reps = if thorough { 40 } else { 8 };
+    for _ in 0..reps {
+        for op in ["from", "try_from"] {
+            for flaw in 0..=6 {
+                let mut counter = 0u64;
+                let first = emit_constructor(g, "@ ", op, flaw, 0);
+                g.count("case.constructor");
+                match first {
+                    Some(cur) => {
+                        emit_observations(g, &cur, true);
+                        // a rejected second constructor call must leave the first object alone
+                        counter += 100;
+                        let flaw2 = g.rng.range(1, 5);
+                        let op2 = if g.rng.chance(1, 2) { "from" } else { "try_from" };
+                        let _ = emit_constructor(g, "", op2, flaw2, counter);
+                        emit_observations(g, &cur, false);
+                    }
+                    None => {
+                        g.op("state".to_string());
+                        g.op("log copy".to_string());
+                        counter += 100;
+                        if let Some(cur) = emit_constructor(g, "", op, 0, counter) {
+                            emit_observations(g, &cur, false);
+                        }
+                    }
+                }
+            }
+        }
+    }
+    // B. every shape whose element count overflows, through every validating entry point
+    for (lens, count) in overflowing() {
+        if count > 64 {
+            continue;
+        }
+        let d = lens.len();
+        for op in ["from", "try_from", "reshape_mut", "reshape_owned"] {
+            let names = pick_names(g, d);
+            g.count(&format!("overflow.{}", op));
+            g.count("case.overflow");
+            if op == "from" || op == "try_from" {
+                let r_ = read_opt(g);
+                g.op(format!("@ {} {} {} 0 {}", op, shape_str(&names, &lens), count, r_));
+                g.op("state".to_string());
+                g.op(format!("get {}", show_usizes(&vec![0; d])));
+                g.op("log copy".to_string());
+            } else if count > 0 {
+                // start from a valid tensor with `count` elements (and the same dimensionality)
+                let mut start = vec![1usize; d];
+                start[0] = count;
+                let ns = pick_names(g, d);
+                g.op(format!("@ from {} {} 0", shape_str(&ns, &start), count));
+                let r_ = read_opt(g);
+                g.op(format!("{} {} {}", op, shape_str(&names, &lens), r_));
+                let cur = Cur { names: ns, lens: start };
+                emit_observations(g, &cur, true);
+            }
+        }
+    }
+    // C. random histories of mutators (40 % with invalid arguments / panicking closures)
+    let histories = if thorough { 1500 } else { 150 };
+    for _ in 0..histories {
+        let d = g.rng.range(0, 4);
+        let names = pick_names(g, d);
+        let lens = random_lens(g, d, 24);
+        g.count(&format!("history.start.D{}", d));
+        g.count("case.history");
+        g.op(format!("@ from {} {} 0", shape_str(&names, &lens), product(&lens)));
+        let mut cur = Cur { names, lens };
+        let mut counter = 0u64;
+        let len = g.rng.range(4, if thorough { 20 } else { 12 });
+        for _ in 0..len {
+            cur = emit_mutator(g, cur, &mut counter);
+            if g.rng.chance(1, 3) {
+                emit_observations(g, &cur, false);
+            }
+        }
+        emit_observations(g, &cur, true);
+    }
+    // D. closures panicking at every position, through every path, on small shapes
+    let small: Vec<Vec<usize>> = vec![vec![], vec![1], vec![3], vec![2, 2], vec![2, 3], vec![3, 1, 2], vec![2, 2, 2]];
+    for lens in &small {
+        let d = lens.len();
+        let n = product(lens);
+        let names: Vec<&'static str> = NAMES[..d].to_vec();
+        for p in 0..=n {
+            if !thorough && p > 2 && p + 1 < n {
+                continue;
+            }
+            g.count("case.closure-panic");
+            g.op(format!("@ from {} {} 10", shape_str(&names, lens), n));
+            for via in ["tensor", "view", "access"] {
+                let r_ = read_opt(g);
+                g.op(format!("map_mut 1000 {} via={} {}", p, via, r_));
+                let r_ = read_opt(g);
+                g.op(format!("map_mut_with_index 20000 {} via={} {}", p, via, r_));
+            }
+            let mut ns = names.clone();
+            ns.reverse();
+            for via in ["from", "index_by_mut", "view"] {
+                let r_ = read_opt(g);
+                g.op(format!("access_map_mut {} 300000 {} via={} {}", names_str(&ns), p, via, r_));
+            }
+            let cur = Cur { names: names.clone(), lens: lens.clone() };
+            emit_observations(g, &cur, true);
+        }
+    }
+    // E. reorder_mut / transpose_mut: the in-place square branch and the fallback
+    for lens in [vec![1, 1], vec![2, 2], vec![3, 3], vec![4, 4], vec![2, 3], vec![3, 2], vec![2, 2, 2], vec![2, 3, 2]] {
+        let d = lens.len();
+        let names: Vec<&'static str> = NAMES[..d].to_vec();
+        for op in ["reorder_mut", "transpose_mut"] {
+            for perm in permutations(d) {
+                for via in ["mut", "alloc"] {
+                    if !thorough && d == 3 && via == "alloc" {
+                        continue;
+                    }
+                    g.count(&format!("case.{}", op));
+                    g.op(format!("@ from {} {} 0", shape_str(&names, &lens), product(&lens)));
+                    let ns: Vec<&'static str> = perm.iter().map(|&i| names[i]).collect();
+                    // first an invalid name list (repeated / unknown name), then the valid one
+                    let mut bad = ns.clone();
+                    bad[d - 1] = if perm[0] % 2 == 0 { bad[0] } else { "zz" };
+                    let r_ = read_opt(g);
+                    g.op(format!("{} {} via={} {}", op, names_str(&bad), via, r_));
+                    let r_ = read_opt(g);
+                    g.op(format!("{} {} via={} {}", op, names_str(&ns), via, r_));
+                    g.op("log mut".to_string());
+                    g.op(format!("log_access {} ref", names_str(&names)));
+                }
+            }
+        }
+    }
+    // F. matrix iteration logs and size-validating constructors
+    let max = if thorough { 5 } else { 3 };
+    for rows in 1..=max {
+        for cols in 1..=max {
+            for order in ["row_major", "column_major"] {
+                for f in FLAVOURS {
+                    g.count(&format!("mlog.{}.{}", order, f));
+                    g.op(format!("@ mlog {} {} {} {}", rows, cols, order, f));
+                }
+            }
+            for f in ["copy", "ref", "mut"] {
+                for r in 0..=rows {
+                    g.count("mlog.row");
+                    g.op(format!("@ mlog {} {} row:{} {}", rows, cols, r, f));
+                }
+                for c in 0..=cols {
+                    g.count("mlog.column");
+                    g.op(format!("@ mlog {} {} column:{} {}", rows, cols, c, f));
+                }
+                g.count("mlog.diagonal");
+                g.op(format!("@ mlog {} {} diagonal {}", rows, cols, f));
+            }
+        }
+    }
+    for (r, c, n) in [(2usize, 3usize, 6u64), (2, 3, 5), (2, 3, 7), (0, 3, 0), (3, 0, 0), (1, 1, 1), (0, 0, 0), (4, 1, 4)] {
+        g.count("mflat.small");
+        g.op(format!("@ mflat {} {} {}", r, c, n));
+    }
+    for (r, c) in [(2usize, 3usize), (1, 1), (0, 3), (3, 0), (0, 0), (5, 2)] {
+        g.count("mempty.small");
+        g.op(format!("@ mempty {} {}", r, c));
+    }
+    for (lens, count) in overflowing() {
+        if lens.len() == 2 && count <= 64 {
+            g.count("mflat.overflowing-size");
+            g.op(format!("@ mflat {} {} {}", lens[0], lens[1], count));
+            g.count("mempty.overflowing-size");
+            g.op(format!("@ mempty {} {}", lens[0], lens[1]));
+        }
     }
 }
